@@ -33,6 +33,7 @@ CONSTANTS
   GuardIsInstance = %(guard)s
   RawNames = {%(raw)s}
   LinkDirnameUntranscoded = %(untrans)s
+  MetaLen = %(meta_len)d
   FullLen = %(full_len)d
   CoreLen = %(core_len)d
   UnivFull <- %(univ_full)s
@@ -58,11 +59,11 @@ CHECK_DEADLOCK FALSE
 """
 ALL_PROTOS = ["G", "GI", "GP", "GD", "H", "W", "GEM", "SP"]
 TIERS = {
-    "quick": dict(full_len=2, core_len=3, univ_full="UFullQ", univ_core="UCoreQ", fixed=["G", "GI"],
+    "quick": dict(meta_len=2, full_len=2, core_len=3, univ_full="UFullQ", univ_core="UCoreQ", fixed=["G", "GI"],
                   rotate=["GP", "GD", "H", "W", "GEM", "SP"], stride=1, extra_mc=None,
                   raw_mc=dict(full_len=2, core_len=1, univ_full="UFullQ", univ_core="UCoreQ", raw='"a", "d"'),
                   names=["ascii", "utf8", "cp437"], name_stride=0),
-    "thorough": dict(full_len=3, core_len=4, univ_full="UFullQ", univ_core="UCoreT", fixed=["G", "GI"],
+    "thorough": dict(meta_len=3, full_len=3, core_len=4, univ_full="UFullQ", univ_core="UCoreT", fixed=["G", "GI"],
                      rotate=["GP", "GD", "H", "W", "GEM", "SP"], stride=4,
                      extra_mc=dict(full_len=1, core_len=5, univ_full="UFullQ", univ_core="UCoreT5"),
                      raw_mc=dict(full_len=1, core_len=3, univ_full="UFullQ", univ_core="UCoreT", raw='"a", "d"'),
@@ -99,6 +100,8 @@ class PYGMain(PYGBase):
 
 def content_of(member, decoy=False):
     tag = member["tag"]
+    if member.get("md") == "empty":
+        return b""
     mark = CANARY if decoy else b"member"
     if tag == "exec":
         return b"#!/bin/sh\necho OUTPUT-OF-SCRIPT %s\n" % mark
@@ -139,14 +142,19 @@ class _RawInfo(zipfile.ZipInfo):
         return self.rawname, self.flag_bits & ~0x800
 
 
-def _zipinfo(name, names):
+# gamma for the header-field classes of spec/Zip.tla (MetaClasses): stored DOS date/time per class
+META_DATE = {"dt0": (1980, 0, 0, 0, 0, 0), "dtoor": (2001, 15, 31, 31, 63, 62), "dt2107": (2107, 12, 31, 23, 59, 58)}
+
+
+def _zipinfo(name, names, md="std"):
     raw = name.encode("utf-8", "surrogateescape")
+    dt = META_DATE.get(md, (2020, 1, 1, 0, 0, 0))
     if names == "cp437" and any(b >= 0x80 for b in raw):
-        zi = _RawInfo(raw.decode("cp437"), date_time=(2020, 1, 1, 0, 0, 0))
+        zi = _RawInfo(raw.decode("cp437"), date_time=dt)
         zi.rawname = raw
     else:
-        zi = zipfile.ZipInfo(name, date_time=(2020, 1, 1, 0, 0, 0))
-    zi.create_system = 3
+        zi = zipfile.ZipInfo(name, date_time=dt)
+    zi.create_system = 0 if md == "dos" else 3
     return zi
 
 
@@ -243,17 +251,18 @@ class Site:
         with zipfile.ZipFile(zp, "w", compression=zipfile.ZIP_DEFLATED) as zf:
             for m in ms:
                 rel = real_path(m["p"], names)
-                zi = _zipinfo(rel + ("/" if m["k"] == "d" else ""), names)
+                md = m.get("md", "std")
+                zi = _zipinfo(rel + ("/" if m["k"] == "d" else ""), names, md)
                 if m["k"] == "d":
-                    zi.external_attr = ((stat.S_IFDIR | 0o755) << 16) | 0x10
+                    zi.external_attr = 0x10 if md == "dos" else ((stat.S_IFDIR | 0o755) << 16) | 0x10
                     zf.writestr(zi, b"")
                 elif m["k"] == "l":
                     zi.external_attr = (stat.S_IFLNK | 0o777) << 16
                     zf.writestr(zi, dest_text(m, names, False).encode("utf-8", "surrogateescape"))
                 else:
                     mode = 0o755 if m["tag"] in ("exec", "pyg") else 0o644
-                    zi.external_attr = (stat.S_IFREG | mode) << 16
-                    zi.compress_type = zipfile.ZIP_DEFLATED
+                    zi.external_attr = 0 if md == "dos" else (stat.S_IFREG | (0 if md == "mode0" else mode)) << 16
+                    zi.compress_type = zipfile.ZIP_STORED if md == "stored" else zipfile.ZIP_DEFLATED
                     zf.writestr(zi, content_of(m))
                 for top in ("ZQ", "FQ"):
                     path = os.fsencode(os.path.join(self.root, loc, top, rel))
@@ -499,7 +508,7 @@ def _run_case(job):
 
 
 def mname(m):
-    n = "/".join(m["p"])
+    n = "/".join(m["p"]) + ("" if m.get("md", "std") == "std" else "{%s}" % m["md"])
     if m["k"] == "d":
         return n + "/"
     if m["k"] == "l":
@@ -526,7 +535,7 @@ def model_constants(chk):
 
 
 def cases_from_model(t, consts, timeout):
-    cfg = MC_CFG % dict(consts, full_len=t["full_len"], core_len=t["core_len"], univ_full=t["univ_full"], univ_core=t["univ_core"],
+    cfg = MC_CFG % dict(consts, meta_len=t.get("meta_len", 0), full_len=t["full_len"], core_len=t["core_len"], univ_full=t["univ_full"], univ_core=t["univ_core"],
                         raw=t.get("raw", ""))
     res = tlc.check_model("MC_C16", "MC_C16_run.cfg", extra_files={"MC_C16_run.cfg": cfg}, dump=True, coverage=True,
                           timeout=timeout)
@@ -586,6 +595,8 @@ def main(chk, replay=None):
             protos = t["fixed"] + ([t["rotate"][n % len(t["rotate"])]] if t["rotate"] else [])
             jobs.append(("c%05d" % n, ms, sels, prune, protos, "ascii", "y.zip" if n % 5 == 2 else ""))
             for k, nm in enumerate(t["names"][1:]):     # the same archive with non-ASCII member names
+                if not any(c_ in NAME_MAPS[nm] for m_ in ms for c_ in m_["p"] + m_["dest"]["c"]):
+                    continue                     # no component that this variant spells differently: identical to the ASCII archive
                 if len(ms) <= 2 or (t["name_stride"] and n % t["name_stride"] == k):
                     jobs.append(("c%05d-%s" % (n, nm), ms, sels, prune, t["fixed"][:2], nm, ""))
     # 2./3. replay into the real server, record traces
@@ -657,8 +668,8 @@ def selftest():
     """Binding demonstration: a recorded trace is accepted; with one field corrupted / one observation
     swapped it is rejected and the clause is named."""
     _init_worker()
-    ms = [{"p": ["a"], "k": "f", "dest": {"abs": False, "c": []}, "tag": "plain"},
-          {"p": ["l"], "k": "l", "dest": {"abs": False, "c": ["a"]}, "tag": "link"}]
+    ms = [{"p": ["a"], "k": "f", "dest": {"abs": False, "c": []}, "tag": "plain", "md": "std"},
+          {"p": ["l"], "k": "l", "dest": {"abs": False, "c": ["a"]}, "tag": "link", "md": "std"}]
     sr = [{"s": ["l"], "args": False, "zf": "f", "zc": "f", "tk": "f", "ro": False, "mb": False, "fw": False, "dd": False}]
     trs, _ = _run_case(("self", ms, sr, [], ["G", "H"], "ascii", ""))
     good = [{"id": x["id"], "init": x["init"], "events": x["events"]} for x in trs]
